@@ -50,16 +50,30 @@ Child5 == [n \in N5 |-> [m \in {} |-> "R"]]
 Static5 == [n \in N5 |-> 0]
 Status5 == [n \in N5 |-> "mate"]
 
-GNodes == CASE GAME = "mate7" -> N1 [] GAME = "coll" -> N2 [] GAME = "twomates" -> N3 [] GAME = "tiny" -> N4 [] OTHER -> N5
-GMoves == CASE GAME = "mate7" -> Moves1 [] GAME = "coll" -> Moves2 [] GAME = "twomates" -> Moves3 [] GAME = "tiny" -> Moves4 [] OTHER -> Moves5
-GChild == CASE GAME = "mate7" -> Child1 [] GAME = "coll" -> Child2 [] GAME = "twomates" -> Child3 [] GAME = "tiny" -> Child4 [] OTHER -> Child5
-GStatic == CASE GAME = "mate7" -> Static1 [] GAME = "coll" -> Static2 [] GAME = "twomates" -> Static3 [] GAME = "tiny" -> Static4 [] OTHER -> Static5
-GStatus == CASE GAME = "mate7" -> Status1 [] GAME = "coll" -> Status2 [] GAME = "twomates" -> Status3 [] GAME = "tiny" -> Status4 [] OTHER -> Status5
+\* ---- game "rich": forced mate in 3 plies through a (both defences lose), b transposes into the same line but has an escape, c is quiet;
+\*      T1 is reached at the same ply by two paths (transposition), L is a loop back towards the root's neighbourhood ----
+N6 == {"R","A","B","C","T1","A2","B2","M","M2","Q","L"}
+Moves6 == [n \in N6 |-> CASE n = "R" -> {"a","b","c"} [] n = "A" -> {"a1","a2"} [] n = "B" -> {"b1","b2"} [] n = "C" -> {"q"}
+                        [] n = "T1" -> {"t"} [] n = "A2" -> {"x"} [] n = "B2" -> {"l"} [] n = "Q" -> {"l"} [] n = "L" -> {"r"} [] OTHER -> {}]
+Child6 == [n \in N6 |-> CASE n = "R" -> [x \in {"a","b","c"} |-> IF x = "a" THEN "A" ELSE IF x = "b" THEN "B" ELSE "C"]
+                        [] n = "A" -> [x \in {"a1","a2"} |-> IF x = "a1" THEN "T1" ELSE "A2"]
+                        [] n = "B" -> [x \in {"b1","b2"} |-> IF x = "b1" THEN "T1" ELSE "B2"]
+                        [] n = "C" -> [x \in {"q"} |-> "Q"] [] n = "T1" -> [x \in {"t"} |-> "M"] [] n = "A2" -> [x \in {"x"} |-> "M2"]
+                        [] n = "B2" -> [x \in {"l"} |-> "L"] [] n = "Q" -> [x \in {"l"} |-> "L"] [] n = "L" -> [x \in {"r"} |-> "C"]
+                        [] OTHER -> [x \in {} |-> n]]
+Static6 == [n \in N6 |-> CASE n = "A" -> -2 [] n = "B" -> -1 [] n = "C" -> 1 [] n = "T1" -> 3 [] n = "A2" -> 2 [] n = "B2" -> -1 [] n = "Q" -> -1 [] n = "L" -> 1 [] OTHER -> 0]
+Status6 == [n \in N6 |-> IF n \in {"M","M2"} THEN "mate" ELSE "open"]
+
+GNodes == CASE GAME = "rich" -> N6 [] GAME = "mate7" -> N1 [] GAME = "coll" -> N2 [] GAME = "twomates" -> N3 [] GAME = "tiny" -> N4 [] OTHER -> N5
+GMoves == CASE GAME = "rich" -> Moves6 [] GAME = "mate7" -> Moves1 [] GAME = "coll" -> Moves2 [] GAME = "twomates" -> Moves3 [] GAME = "tiny" -> Moves4 [] OTHER -> Moves5
+GChild == CASE GAME = "rich" -> Child6 [] GAME = "mate7" -> Child1 [] GAME = "coll" -> Child2 [] GAME = "twomates" -> Child3 [] GAME = "tiny" -> Child4 [] OTHER -> Child5
+GStatic == CASE GAME = "rich" -> Static6 [] GAME = "mate7" -> Static1 [] GAME = "coll" -> Static2 [] GAME = "twomates" -> Static3 [] GAME = "tiny" -> Static4 [] OTHER -> Static5
+GStatus == CASE GAME = "rich" -> Status6 [] GAME = "mate7" -> Status1 [] GAME = "coll" -> Status2 [] GAME = "twomates" -> Status3 [] GAME = "tiny" -> Status4 [] OTHER -> Status5
 GKey == [n \in GNodes |-> IF Collide /\ n = "Rc" THEN "R" ELSE n]
 GMoveIds == UNION { GMoves[n] : n \in GNodes }
 \* move orders: every permutation at the root (the seed's jitter), one fixed order elsewhere
 Perms(S) == { p \in [1..Cardinality(S) -> S] : \A i, j \in 1..Cardinality(S) : i # j => p[i] # p[j] }
-GOrdersAll == [n \in GNodes |-> IF n = "R" THEN Perms(GMoves[n]) ELSE IF GMoves[n] = {} THEN {<<>>} ELSE { CHOOSE p \in Perms(GMoves[n]) : TRUE }]
+GOrdersAll == [n \in GNodes |-> IF n \in {"R", "A", "B"} THEN Perms(GMoves[n]) ELSE IF GMoves[n] = {} THEN {<<>>} ELSE { CHOOSE p \in Perms(GMoves[n]) : TRUE }]
 GOrdersOne == [n \in GNodes |-> IF GMoves[n] = {} THEN {<<>>} ELSE { CHOOSE p \in Perms(GMoves[n]) : TRUE }]
 
 \* any table a previous search (of any root, any depth) could have left behind: every entry is legal
